@@ -145,7 +145,7 @@ func replay(path string, w *tlaio.Writer, st *stats) error {
 		x.emit(line)
 	}
 	x.drain()
-	x.emit(map[string]any{"ev": "end"})
+	x.emit(x.endLine())
 	x.restartAndProbe()
 	x.close()
 	st.Skipped += x.nSkipped
@@ -207,7 +207,8 @@ func freeRun(w *tlaio.Writer, st *stats, reqs map[string]Req, seed int64) {
 	case <-time.After(10 * time.Second):
 		x.emit(map[string]any{"ev": "hung"})
 	}
-	x.emit(map[string]any{"ev": "end"})
+	time.Sleep(2 * time.Millisecond)
+	x.emit(x.endLine())
 	x.close()
 	st.FreeRuns++
 }
